@@ -68,7 +68,9 @@ type ContactSpec struct {
 	Numbers    map[string]string `json:"numbers"` // field key -> decimal
 	Dates      map[string]string `json:"dates"`   // field key -> RFC3339Nano
 	Texts      map[string]string `json:"texts"`   // field key -> text
-	Ticket     bool              `json:"ticket"`
+	// number/date fields holding text that has no value of the field's type (what a failed parse stores): absent for queries
+	TextOnly map[string]string `json:"text_only,omitempty"`
+	Ticket   bool              `json:"ticket"`
 }
 
 func (c ContactSpec) json() []byte {
@@ -100,6 +102,11 @@ func (c ContactSpec) json() []byte {
 	}
 	for k, v := range c.Texts {
 		if v != "" {
+			fields[k] = map[string]any{"text": v}
+		}
+	}
+	for k, v := range c.TextOnly {
+		if _, typed := fields[k]; !typed && v != "" {
 			fields[k] = map[string]any{"text": v}
 		}
 	}
@@ -247,6 +254,25 @@ func run(c Case) *harn.Failure {
 		if got != want {
 			f = harn.Failf("compositional", "query %q evaluates to %v but combining its leaves gives %v (contact %s)", text, got, want, c.Contact.json())
 			return
+		}
+		// a parsed query is a value: parsed under an environment that differs only in its timezone (as group queries are,
+		// which are parsed when the assets are loaded) and evaluated under this one, it gives the same verdict
+		var envDoc map[string]any
+		if json.Unmarshal(c.Env, &envDoc) == nil {
+			otherTZ := "Asia/Tokyo"
+			if envDoc["timezone"] == otherTZ {
+				otherTZ = "America/Los_Angeles"
+			}
+			envDoc["timezone"] = otherTZ
+			if ob, err := json.Marshal(envDoc); err == nil {
+				if q2, perr := contactql.ParseQuery(gen.MustEnv(ob), text, sa()); perr == nil {
+					if got2 := contactql.EvaluateQuery(env, q2, contact); got2 != got {
+						f = harn.Failf("parse-environment-independent", "query %q parsed under timezone %s and evaluated under %s gives %v; parsed and evaluated under %s it gives %v (contact %s)", text, otherTZ, env.Timezone(), got2, env.Timezone(), got, c.Contact.json())
+						return
+					}
+					stats.Label("query:cross-environment")
+				}
+			}
 		}
 
 		// per-leaf models
@@ -517,6 +543,16 @@ func drawCase(t *rapid.T) Case {
 	for _, k := range []string{"dob", "joined"} {
 		if rapid.Bool().Draw(t, "has"+k) {
 			c.Dates[k] = drawInstantNear(t, loc, y, m, d).In(zoneOf()).Format(time.RFC3339Nano)
+		}
+	}
+	for _, k := range []string{"age", "score", "dob", "joined"} {
+		_, n := c.Numbers[k]
+		_, dt := c.Dates[k]
+		if !n && !dt && rapid.IntRange(0, 4).Draw(t, "textonly"+k) == 0 {
+			if c.TextOnly == nil {
+				c.TextOnly = map[string]string{}
+			}
+			c.TextOnly[k] = rapid.SampledFrom([]string{"not telling", "n/a", "soon", "x"}).Draw(t, "textonlyv")
 		}
 	}
 	for _, k := range []string{"gender", "nick"} {
